@@ -1934,6 +1934,7 @@ arglist:
 	arguments optional_comma
 	{
 		$$ = $1
+		yylex.(*yyLex).checkArglist($$)
 	}
 |	optional_arguments '*' test arguments2
 	{
@@ -1944,6 +1945,7 @@ arglist:
 		}
 		call.Keywords = append(call.Keywords, $4.Keywords...)
 		$$ = call
+		yylex.(*yyLex).checkArglist($$)
 	}
 |	optional_arguments '*' test arguments2 ',' STARSTAR test
 	{
@@ -1955,12 +1957,14 @@ arglist:
 		}
 		call.Keywords = append(call.Keywords, $4.Keywords...)
 		$$ = call
+		yylex.(*yyLex).checkArglist($$)
 	}
 |	optional_arguments STARSTAR test
 	{
 		call := $1
 		call.Kwargs = $3
 		$$ = call
+		yylex.(*yyLex).checkArglist($$)
 	}
 
 // The reason that keywords are test nodes instead of NAME is that using NAME
@@ -1974,9 +1978,9 @@ argument:
 |	test comp_for
 	{
 		$$ = &ast.Call{}
-		$$.Args = []ast.Expr{
-			&ast.GeneratorExp{ExprBase: ast.ExprBase{Pos: $<pos>$}, Elt: $1, Generators: $2},
-		}
+		genexp := &ast.GeneratorExp{ExprBase: ast.ExprBase{Pos: $<pos>$}, Elt: $1, Generators: $2}
+		yylex.(*yyLex).noteBareGenexp(genexp)
+		$$.Args = []ast.Expr{genexp}
 	}
 |	test '=' test  // Really [keyword '='] test
 	{
